@@ -377,4 +377,175 @@ func init() {
 		}
 		return nil
 	})
+	selfcheck.Add("c06 references beyond a machine word and long size fields", func() error {
+		// colex order on element lists = colex order on word masks
+		for n := 0; n <= 9; n++ {
+			for k := 0; k <= n; k++ {
+				sets := colexSubsets(n, k)
+				masks := kSubsets(n, k)
+				if len(sets) != len(masks) || len(sets) != binom(n, k) {
+					return fmt.Errorf("colexSubsets(%d,%d): %d sets, %d masks", n, k, len(sets), len(masks))
+				}
+				for i, st := range sets {
+					m := 0
+					for a, v := range st {
+						if a > 0 && st[a-1] >= v {
+							return fmt.Errorf("colexSubsets(%d,%d)[%d] = %v not ascending", n, k, i, st)
+						}
+						m |= 1 << uint(v)
+					}
+					if m != masks[i] {
+						return fmt.Errorf("colexSubsets(%d,%d)[%d] = %v, mask order gives %b", n, k, i, st, masks[i])
+					}
+				}
+				if !refKneserSets(n, k).Equal(refKneser(n, k)) || !refBipartiteKneserSets(n, k).Equal(refBipartiteKneser(n, k)) {
+					return fmt.Errorf("Kneser references on element lists and on masks differ for (%d,%d)", n, k)
+				}
+			}
+		}
+		// K(65,2): C(65,2) = 2080 vertices, regular of degree C(63,2) = 1953; the sets {0,64} and {1,64} (colex ranks 2016, 2017) share 64
+		if g := refKneserSets(65, 2); g.N != 2080 || !regular(g, 1953) || g.M() != 2031120 || g.Has(2016, 2017) || !g.Has(0, 2079) {
+			return fmt.Errorf("refKneserSets(65,2): n=%d m=%d", g.N, g.M())
+		}
+		if s := colexSubsets(65, 2); fmt.Sprint(s[2016], s[2017], s[2079], s[0]) != "[0 64] [1 64] [63 64] [0 1]" {
+			return fmt.Errorf("colexSubsets(65,2): %v %v %v %v", s[2016], s[2017], s[2079], s[0])
+		}
+		// H(65,1): {i} ~ [65] minus {j} iff i != j; the 64-subsets in colex order: rank j lacks the element 64-j
+		if b := refBipartiteKneserSets(65, 1); b.N != 130 || b.M() != 65*64 || !regular(b, 64) || b.Has(64, 65) || !b.Has(0, 65) || b.Has(0, 129) {
+			return fmt.Errorf("refBipartiteKneserSets(65,1): n=%d m=%d", b.N, b.M())
+		}
+		if !refKneserSets(70, 1).Equal(refComplete(70)) || refKneserSets(70, 69).M() != 0 || refKneserSets(66, 66).N != 1 || refKneserSets(66, 0).N != 1 {
+			return fmt.Errorf("refKneserSets k = 1, n-1, n, 0")
+		}
+		// size fields
+		for _, n := range []int{0, 1, 62, 63, 64, 4095, 4096, 4227, 258047, 258048, 262144, 300000, 1<<21 + 1} {
+			if string(sizeBytes(n)) != string(codec.SizeHeader(n)) {
+				return fmt.Errorf("sizeBytes(%d) = %v, codec.SizeHeader %v", n, sizeBytes(n), codec.SizeHeader(n))
+			}
+			for _, w := range []int{18, 36} {
+				if n >= 1<<uint(w) || (w == 18 && n > 258047) {
+					continue
+				}
+				got, used, ok := codec.ParseSize(longSize(n, w))
+				if !ok || used != 1+w/6+(w/36) || got != uint64(n) {
+					return fmt.Errorf("longSize(%d,%d) = %v is read as %d (%d bytes)", n, w, longSize(n, w), got, used)
+				}
+			}
+		}
+		if string(sizeBytes(258048)) != "~~???~??" || string(sizeBytes(63)) != "~??~" {
+			return fmt.Errorf("sizeBytes(258048) = %q, sizeBytes(63) = %q", sizeBytes(258048), sizeBytes(63))
+		}
+		// the edge-list writers agree with each other and are read back, also behind the 4-byte form
+		rnd := engine.NewRng(20260929)
+		for _, n := range []int{1000, 4227, 65537, 258048, 300000} {
+			es := largeEdges(n, rnd)
+			mod := modelOfEdges(n, es)
+			a, b := refSparse6Edges(n, es), codec.Sparse6(n, es)
+			if a != b {
+				return fmt.Errorf("refSparse6Edges and codec.Sparse6 differ for n=%d", n)
+			}
+			sc, err := codec.Sparse6Scan(codec.S6Header+a, uint64(n))
+			if err != nil || int(sc.N) != n || len(sc.Edges) != len(es) || sc.Loops != 0 || sc.Repeats != 0 {
+				return fmt.Errorf("sparse6 string for n=%d is not read back: %v", n, err)
+			}
+			for _, e := range sc.Edges {
+				if !mod.has(e[0], e[1]) || !mod.has(e[1], e[0]) || mod.has(e[0], e[0]) {
+					return fmt.Errorf("sparse6 string for n=%d: edge %v", n, e)
+				}
+			}
+			if mod.m != len(es) || len(es) < 300 {
+				return fmt.Errorf("largeEdges(%d): %d edges", n, len(es))
+			}
+		}
+		g := gen.Random(rnd, 90, 0.3)
+		if mg, me := modelOfGraph(g), modelOfEdges(90, g.Edges()); mg.m != me.m || fmt.Sprint(mg.nbrs(7)) != fmt.Sprint(me.nbrs(7)) || mg.has(3, 4) != me.has(3, 4) {
+			return fmt.Errorf("bigModel of a graph and of its edge list differ")
+		}
+		if pg, err := codec.Graph6Parse(codec.G6Header+codec.Graph6(g), 90); err != nil || !pg.Equal(g) {
+			return fmt.Errorf("codec.Graph6 / Graph6Parse on 90 vertices")
+		}
+		return nil
+	})
+	selfcheck.Add("c06 budgeted isomorphism search (agrees with the iso oracle; rook / hypercube / snark renumbered)", func() error {
+		rnd := engine.NewRng(20260930)
+		// all pairs of classes n = 5, 6: isomorphic iff the same class
+		for n := 5; n <= 6; n++ {
+			cl := gen.Classes(n)
+			for i := range cl {
+				a := cl[i].Induced(rnd.Perm(n))
+				for j := range cl {
+					if cl[i].M() != cl[j].M() {
+						continue
+					}
+					v, p := isoBudgeted(a, cl[j], 100000)
+					if (v == 1) != (i == j) || v < 0 || (v == 1 && !isIsomorphism(a, cl[j], p)) {
+						return fmt.Errorf("isoBudgeted on classes %d, %d of n=%d: %d", i, j, n, v)
+					}
+				}
+			}
+		}
+		// random pairs against the iso oracle
+		for k := 0; k < 300; k++ {
+			n := 7 + rnd.Intn(10)
+			a := gen.RandomRegular(rnd, n+n%2, 3)
+			b := gen.RandomRegular(rnd, n+n%2, 3)
+			if k%3 == 0 {
+				b = a.Induced(rnd.Perm(a.N))
+			}
+			v, _ := isoBudgeted(a, b, 100000)
+			if v < 0 || (v == 1) != iso.Isomorphic(a, b) {
+				return fmt.Errorf("isoBudgeted disagrees with the iso oracle on %s and %s: %d", a, b, v)
+			}
+		}
+		// the 4 x 4 rook's graph and the Shrikhande graph have the same parameters and are not isomorphic
+		if v, _ := isoBudgeted(refRook(4, 4), gen.Shrikhande(), 100000); v != 0 {
+			return fmt.Errorf("isoBudgeted(rook 4x4, Shrikhande) = %d", v)
+		}
+		// two vertex-transitive quartic graphs on 52 vertices, one with triangles, one without
+		if v, _ := isoBudgeted(refCirculant(52, []int{1, 2}), refCirculant(52, []int{1, 3}), 3000); v != 0 {
+			return fmt.Errorf("isoBudgeted(C52(1,2), C52(1,3)) = %d", v)
+		}
+		// renumbered members of the families, more than 48 vertices, within the budget of isoVerdict
+		type pair struct {
+			name string
+			a, b *rg.G
+		}
+		rowMajor := func(a, b int) *rg.G { // square (r, c) = r*b + c
+			g := rg.New(a * b)
+			for x := 0; x < a*b; x++ {
+				for y := 0; y < x; y++ {
+					if (x/b == y/b) != (x%b == y%b) {
+						g.Add(x, y)
+					}
+				}
+			}
+			return g
+		}
+		shuffled := func(g *rg.G) *rg.G { return g.Induced(rnd.Perm(g.N)) }
+		for _, t := range []pair{
+			{"rook 9x7 row by row", refRook(9, 7), rowMajor(9, 7)},
+			{"rook 5x13 row by row", refRook(5, 13), rowMajor(5, 13)},
+			{"rook 11x12 row by row", refRook(11, 12), rowMajor(11, 12)},
+			{"rook 8x8 shuffled", refRook(8, 8), shuffled(refRook(8, 8))},
+			{"hypercube 8 shuffled", refHypercube(8), shuffled(refHypercube(8))},
+			{"folded hypercube 9 shuffled", refFoldedHypercube(9), shuffled(refFoldedHypercube(9))},
+			{"flower snark 33 shuffled", refFlowerSnark(33), shuffled(refFlowerSnark(33))},
+			{"bipartite Kneser (65,1) shuffled", refBipartiteKneserSets(65, 1), shuffled(refBipartiteKneserSets(65, 1))},
+			{"cycle 129 shuffled", refCycle(129), shuffled(refCycle(129))},
+			{"path 130 shuffled", refPath(130), shuffled(refPath(130))},
+			{"friendship 64 shuffled", refFriendship(64), shuffled(refFriendship(64))},
+			{"star 257 shuffled", refStar(257), shuffled(refStar(257))},
+		} {
+			if v := isoVerdict(t.a, t.b); v != 1 {
+				return fmt.Errorf("isoVerdict(%s) = %d", t.name, v)
+			}
+		}
+		if v := isoVerdict(refRook(9, 7), refRook(7, 9)); v != 1 {
+			return fmt.Errorf("isoVerdict(rook 9x7, rook 7x9) = %d", v)
+		}
+		if v := isoVerdict(refHypercube(6), refCirculant(64, []int{1, 2, 3})); v != 0 {
+			return fmt.Errorf("isoVerdict(hypercube 6, a 6-regular circulant on 64 vertices) = %d", v)
+		}
+		return nil
+	})
 }
